@@ -19,6 +19,9 @@ type Violation struct {
 
 // RunResult is what one simulated run (one tape) reports.
 type RunResult struct {
+	// Runaway: during the free-running teardown (everything halted, the root context cancelled) a task of
+	// the code under test passed 200000 hook points without ending; the kernel stopped it at this point.
+	Runaway      string         `json:"runaway,omitempty"`
 	Violations   []Violation    `json:"violations,omitempty"`
 	Probes       map[string]int `json:"probes,omitempty"`       // "this condition was reached" counters
 	Faults       map[string]int `json:"faults,omitempty"`       // fault kinds that actually fired
